@@ -44,7 +44,7 @@ func (w *World) checkPrincipalNodeType(P string, f *Facts, r *Roles, ef *ExecFac
 			return
 		}
 		fa, ok := s.Addr.(*ssa.FieldAddr)
-		if !ok || len(h.Params) == 0 || fa.X != ssa.Value(h.Params[0]) {
+		if !ok || len(h.Params) == 0 || fa.X != ssa.Value(ctxParam(h)) {
 			return
 		}
 		if fa.Field == r.CtxResultField || fa.Field == r.CtxPosField || fa.Field == r.CtxSizeField || fa.Field == r.CtxRootField {
@@ -264,7 +264,7 @@ func fieldAtSuccess(fn *ssa.Function, F int, axis string, tbl *AxisTable) (strin
 		for _, in := range b.Instrs {
 			switch x := in.(type) {
 			case *ssa.Store:
-				if fa, ok := x.Addr.(*ssa.FieldAddr); ok && fa.Field == F && len(fn.Params) > 0 && fa.X == ssa.Value(fn.Params[0]) {
+				if fa, ok := x.Addr.(*ssa.FieldAddr); ok && fa.Field == F && len(fn.Params) > 0 && fa.X == ssa.Value(ctxParam(fn)) {
 					if t := constText(x.Val); t != "" {
 						val = t
 					} else if t := tableField(x.Val, axis, tbl); t != "" {
